@@ -486,9 +486,9 @@ package eval
 // ---------------------------------------------------------------------------
 // C06 / C14 — lexer.  Facts about the uninterpreted string vocabulary (trusted, listed in the evidence):
 // a string built from n runes has at least n bytes; it is "" iff n == 0; its first byte is '"' iff its first rune is.
-//@ axiom (forall ((a (Array Int Int)) (o Int) (n Int)) (! (=> (>= n 0) (>= (strlen (strOfArr a o n)) n)) :pattern ((strOfArr a o n))))
-//@ axiom (forall ((a (Array Int Int)) (o Int) (n Int)) (! (= (= (strOfArr a o n) "") (<= n 0)) :pattern ((strOfArr a o n))))
-//@ axiom (forall ((a (Array Int Int)) (o Int) (n Int)) (! (=> (>= n 1) (= (hasPrefix (strOfArr a o n) #quote) (= (select a o) 34))) :pattern ((hasPrefix (strOfArr a o n) #quote))))
+//@ axiom [strings] (forall ((a (Array Int Int)) (o Int) (n Int)) (! (=> (>= n 0) (>= (strlen (strOfArr a o n)) n)) :pattern ((strOfArr a o n))))
+//@ axiom [strings] (forall ((a (Array Int Int)) (o Int) (n Int)) (! (= (= (strOfArr a o n) "") (<= n 0)) :pattern ((strOfArr a o n))))
+//@ axiom [strings] (forall ((a (Array Int Int)) (o Int) (n Int)) (! (=> (>= n 1) (= (hasPrefix (strOfArr a o n) #quote) (= (select a o) 34))) :pattern ((hasPrefix (strOfArr a o n) #quote))))
 
 //@ func parser.lex.lexComment C06 C14
 //@   inline
@@ -504,6 +504,7 @@ package eval
 //@     invariant [cursor] (and (<= 0 $start) (<= $start $i) (<= $i (len $A)))
 //@     invariant [first-rune] (=> (< $start $i) (and (not (= (idx $A $start) 34)) (not (= (idx $A $start) 59))))
 //@ func parser.lex C06 C14
+//@   uses strings
 //@   requires [parser] (PARSER $p)
 //@   loop 1
 //@     invariant [cursor] (and (<= 0 $i) (<= $i (len $A)))
